@@ -35,12 +35,12 @@ def cgroup_lets(c, os_):
     c.let("P", "int_of_str(p_tok)")
     c.let("cg", f"ite(limited and Q > 0 and P > 0, ceil_div(Q, P), {os_})")
     # well-formedness of the kernel files (precondition, with covers)
-    c.requires("cgroup-v2-two-tokens", "implies(v2, len(toks) == 2)")
-    c.requires("cgroup-tokens-are-integers", "implies(limited, str_is_int(q_tok) and str_is_int(p_tok))")
+    c.rely("cgroup-v2-two-tokens", "implies(v2, len(toks) == 2)", "A-env")
+    c.rely("cgroup-tokens-are-integers", "implies(limited, str_is_int(q_tok) and str_is_int(p_tok))", "A-env")
 
 
 def env_req(c):
-    c.requires("override-is-integer", "implies(env_has('LOKY_MAX_CPU_COUNT'), str_is_int(env_val('LOKY_MAX_CPU_COUNT')))")
+    c.rely("override-is-integer", "implies(env_has('LOKY_MAX_CPU_COUNT'), str_is_int(env_val('LOKY_MAX_CPU_COUNT')))", "A-env")
 
 
 # ------------------------------------------------------------------ cgroup
@@ -147,7 +147,7 @@ c.expect(paths=5)
 
 # --------------------------------------------------------------- cpu_count
 c = M.contract("cpu_count", props=["C17"])
-c.param("only_physical_cores", T.Bool)
+c.param("only_physical_cores", T.Bool, default=__import__("pyvc.values", fromlist=["VBool"]).VBool(False))
 c.touch("physical_cores_cache")
 c.let("os_raw", "os.cpu_count()")
 c.let("os_n", "ite(is_none(os_raw) or the(os_raw) == 0, 1, the(os_raw))")
@@ -193,3 +193,13 @@ c.replay("cpu_count", cache="old(physical_cores_cache)",
          Q="int_of_str(ite(os.path.exists('/sys/fs/cgroup/cpu.max'), split_ws(strip(file_text('/sys/fs/cgroup/cpu.max')))[0], strip(file_text('/sys/fs/cgroup/cpu/cpu.cfs_quota_us'))))",
          P="int_of_str(ite(os.path.exists('/sys/fs/cgroup/cpu.max'), split_ws(strip(file_text('/sys/fs/cgroup/cpu.max')))[1], strip(file_text('/sys/fs/cgroup/cpu/cpu.cfs_period_us'))))",
          env_has="env_has('LOKY_MAX_CPU_COUNT')", LK="int_of_str(env_val('LOKY_MAX_CPU_COUNT'))")
+
+
+# ---------------------------------------------------------------- get_context
+c = M.contract("get_context")
+c.param("method", T.Obj, default=__import__("pyvc.values", fromlist=["NONE"]).NONE)
+c.returns(T.Ref("Context"))
+c.raises("context/unknown-method", "ValueError", when="method is not None")
+c.modifies()
+c.note("thin wrapper over multiprocessing.get_context: summary only (which context is returned is not needed by any property)")
+c.trusted_summary = True
